@@ -259,7 +259,10 @@ def run(tier):
         explained = {}
         unexplained = []
         for r, (nsrc, feats), nr in zip(failing, neutral, nres):
-            if feats and not fails(nr):
+            # a known construct explains a failure only if the scanner behaves there as its (validated) model does:
+            # a split that differs from the model's is a different violation, whatever constructs the input contains
+            same_as_model = (not lean_ok) or r["model"] == r["impl"]
+            if feats and not fails(nr) and same_as_model:
                 for f in feats:
                     explained.setdefault(f, r["src"])
             else:
